@@ -112,18 +112,22 @@ Theorem C20_objects_inside_arrays_cleaned :
 Proof. exact array_members_cleaned. Qed.
 Print Assumptions C20_objects_inside_arrays_cleaned.
 
-(* sanitize_record: whenever the colour-coded record is pre ++ m with pre empty or ending in
-   '|' and m parses as a JSON object, the raw fall-back branch is not taken: the output is the
-   untouched leading fields followed by the dump of the CLEANED object parsed from a tail of
-   the record ('|' inside the message does not defeat it).  json.loads is the parameter [parse]. *)
+(* sanitize_record: whenever the record AS GIVEN is pre ++ m with pre empty or ending in '|' and m
+   parses as a JSON object, the raw fall-back branch is not taken - with colour on or off, whatever
+   the message contains (level texts such as " ERROR    ", colour tokens): the output is the leading
+   fields (colour-coded field by field) followed by the dump of the CLEANED object parsed from a
+   tail of the record ('|' inside the message does not defeat it).  json.loads is the parameter
+   [parse].  (Until F-C20-7 the hypothesis read "color_code can record = pre ++ m": the theorem was
+   true and the defect sat in the hypothesis, which colouring falsifies for a message that holds the
+   level text.) *)
 Theorem C20_json_tail_is_cleaned :
   forall (parse : text -> option obj) (digest : text -> text) (can : bool) (record pre m : text) (o : obj),
-  color_code can record = pre ++ m ->
+  record = pre ++ m ->
   (pre = [] \/ exists pre', pre = pre' ++ [bar]) -> parse m = Some o ->
   exists (i : nat) (o' : obj),
-    parse (join [bar] (skipn i (split bar (color_code can record)))) = Some o' /\
+    parse (join [bar] (skipn i (split bar record))) = Some o' /\
     sanitize_core sensitive_code parse digest can record =
-      join [bar] (firstn i (split bar (color_code can record)) ++
+      join [bar] (map (color_code can) (firstn i (split bar record)) ++
                   [T " " ++ json_dumps_flat (render_obj colours_on
                      (clean_obj sensitive_code py_str py_repr digest (colour_quotes colours_on) o'))]).
 Proof. exact (sanitize_clean_branch sensitive_code). Qed.
@@ -200,6 +204,34 @@ Theorem C20_session_output_depends_on_current_objects_only :
 Proof. exact sess_run_nth. Qed.
 Print Assumptions C20_session_output_depends_on_current_objects_only.
 
+(* ---- duplicate warnings and the report logged at interpreter exit (F-C20-8) ----
+   [warn_session gcl same msgs] is everything a process emits for the warnings [msgs] (in
+   order) followed by interpreter exit, for the stream logger (gcl = false) and for
+   GoogleLogger (gcl = true; same = do the reports go to the logger that counted).  Every
+   emitted message is one of the caller's own warnings, or the report DICT
+   {"message": ..., "suppressed": <value of a warning>} - never a line of text built from one. *)
+Theorem C20_warning_session_emits_messages_or_report_objects :
+  forall (gcl same : bool) (msgs : list wmsg) (e : wmsg),
+  In e (warn_session gcl same msgs) ->
+  In e msgs \/ exists (m : wmsg) (n : nat), In m msgs /\ e = WObj (report_obj gcl m (S n)).
+Proof. exact warn_session_emits. Qed.
+Print Assumptions C20_warning_session_emits_messages_or_report_objects.
+
+(* ... and cleaning the report dict (what the formatter / write_event do with every dict
+   message, theorems above) redacts every sensitive member of the suppressed message, at any
+   depth: C20_clean_redacts one level down, under the non-sensitive key "suppressed". *)
+Theorem C20_suppressed_warning_is_redacted_in_the_report :
+  forall (str_of repr_of : json -> text) (digest colq : text -> text) (gcl : bool) (m : wmsg) (n : nat)
+         (p : list nat) (i : nat) (kvs : list (text * json)) (k : text) (v : json),
+  forallb (fun k => negb (sensitive_spec k) && negb (ends_with [10] k)) (jkeys p (wvalue gcl m)) = true ->
+  jget p (wvalue gcl m) = Some (JObj kvs) -> nth_error kvs i = Some (k, v) -> sensitive_spec k = true ->
+  cget ((1%nat :: p) ++ [i]) (clean_val sensitive_code str_of repr_of digest colq (JObj (report_obj gcl m n))) =
+    Some (CRedacted (digest (str_of v))) /\
+  forall q, q <> [] ->
+    cget (((1%nat :: p) ++ [i]) ++ q) (clean_val sensitive_code str_of repr_of digest colq (JObj (report_obj gcl m n))) = None.
+Proof. exact report_redacts. Qed.
+Print Assumptions C20_suppressed_warning_is_redacted_in_the_report.
+
 (* Non-vacuity. *)
 Definition ex_record : obj :=
   [(T "user", JStr (T "bob"));
@@ -268,4 +300,29 @@ Example C20_nonvacuous_shared_object :
            (T "replica", T "{'host': 'db', 'password': '<redacted:0a1b2c3d>', 'api_token': '<redacted:0a1b2c3d>'}");
            (T "targets", T "[{'host': 'db', 'password': '<redacted:0a1b2c3d>', 'api_token': '<redacted:0a1b2c3d>'}, {'host': 'db', 'password': '<redacted:0a1b2c3d>', 'api_token': '<redacted:0a1b2c3d>'}]");
            (T "history", T "{'n': '1'}")]].
+Proof. repeat split; vm_compute; reflexivity. Qed.
+
+(* F-C20-7 witness: colour ON, the message holds the record's own level text.  The JSON tail is
+   found and cleaned, the level is coloured in the header field only, the value is untouched. *)
+Example C20_level_text_inside_the_message :
+  let m := T " {""note"": "" ERROR    "", ""password"": ""hunter2""}" in
+  let parse := fun s => if teqb s m then Some [(T "note", JStr (T " ERROR    ")); (T "password", JStr (T "hunter2"))] else None in
+  sanitize_core sensitive_code parse (fun _ => T "0a1b2c3d") true (T "app | ERROR    |" ++ m) =
+    T "app |" ++ color_code true (T " ERROR    ") ++
+    T "| {""\u0001KEYmnote\u0001OFFm"": ""\u0001VALUEm ERROR    \u0001OFFm"", ""\u0001KEYmpassword\u0001OFFm"": ""\u0001VALUEm\u0001PURPLEm<redacted:0a1b2c3d>\u0001OFFm\u0001OFFm""}" /\
+  teqb (color_code true (T " ERROR    ")) (T " ERROR    ") = false.
+Proof. split; vm_compute; reflexivity. Qed.
+
+(* F-C20-8 witness: a dict warning logged three times, then exit: the warning once, then the
+   report dict; cleaning the report redacts the password inside "suppressed". *)
+Example C20_nonvacuous_warning_session :
+  let m := WObj [(T "password", JStr (T "hunter2")); (T "note", JStr (T "n"))] in
+  warn_session false true [m; m; m] =
+    [m; WObj [(T "message", JStr (T "The following message was suppressed 2 time(s)"));
+              (T "suppressed", JObj [(T "password", JStr (T "hunter2")); (T "note", JStr (T "n"))])]] /\
+  warn_session true false [m; m] = [m; WObj (report_obj true m 1)] /\
+  warn_session true true [m] = [m] /\
+  clean_record_model (fun _ => T "0a1b2c3d") false (report_obj false m 2) =
+    [(T "message", T "The following message was suppressed 2 time(s)");
+     (T "suppressed", T "{'password': '<redacted:0a1b2c3d>', 'note': 'n'}")].
 Proof. repeat split; vm_compute; reflexivity. Qed.
